@@ -86,6 +86,7 @@ fn replay_engine(engine: &str, case: &Value) -> Option<Result<Result<(), String>
         "pool-history-swap-value" => replay_case(&poolprops::c03_hist(), case),
         "pool-history-swap-conservation" => replay_case(&poolprops::c04_hist(), case),
         "pool-history-quotes" => replay_case(&poolprops::c12_hist(), case),
+        "pool-history-pricing" => replay_case(&poolprops::c19_hist(), case),
         "pool-history-immutability" => replay_case(&poolprops::c16_hist(), case),
         "pool-history-rejections" => replay_case(&poolprops::c20_hist(), case),
         "pool-history-all" => replay_case(&poolprops::all_hist(), case),
